@@ -79,6 +79,9 @@ func (f *Case) Call(s *slip.Scope, args slip.List, depth int) (result slip.Objec
 		if same {
 			for i := 1; i < len(clause); i++ {
 				result = slip.EvalArg(s, clause, i, d2)
+				if _, ok := result.(slip.NonLocalExit); ok {
+					return
+				}
 			}
 			break
 		}
